@@ -17,11 +17,12 @@ The theorems below are about EXECUTED model programs (`affineT`, `scaleShiftT`, 
 `LF.sum`, `sumG`, `LF.dot`, `LF.matVec`, `LF.linear`) run at `rndX r e` versus the same programs run at `NF.realX e`,
 for ANY `u`, `r` with `Rnd u r`; all bounds are explicit.
 
-**TRUSTED (not proved here):** IEEE-754 binary32 / binary64 round-to-nearest, away from overflow and underflow,
-satisfy `Rnd` with `u = 2^-24` / `u = 2^-53`.  This is the standard fact (Higham Thm 2.2); Lean's `Float`/`Float32`
-are opaque to the kernel, so the link "driver at `float32X` / `floatX` = `rndX r32 e` / `rndX r64 e`" is an assumption
-of the numeric clause of C19, not a theorem.  No monotonicity of `r` is needed: the only comparisons the programs
-below make are against `o.zero = r 0 = 0`.
+**Realised, then TRUSTED:** `Lemmas/RoundNearest.lean` defines round-to-nearest-even to `p` significant bits with an unbounded
+exponent (`fl p`), proves `Rnd 2^-p (fl p)` at every real (Higham Thm 2.2) and that any function meeting IEEE-754's
+`roundTiesToEven` specification equals `fl 24` / `fl 53` on the normal range of binary32 / binary64.  What stays an assumption
+(Lean's `Float`/`Float32` are opaque to the kernel): the driver's primitives at `float32X` / `floatX` are correctly rounded and
+no intermediate result overflows or becomes subnormal — then its run is the run at `rndX (fl 24) e` / `rndX (fl 53) e`.
+No monotonicity of `r` is needed: the only comparisons the programs below make are against `o.zero = r 0 = 0`.
 -/
 open NF DualSound
 
